@@ -76,9 +76,6 @@ impl BF {
     pub fn is_zero(&self) -> bool {
         self.m.is_zero()
     }
-    pub fn is_neg(&self) -> bool {
-        self.m.is_negative()
-    }
     pub fn neg(&self) -> BF {
         BF { m: -&self.m, e: self.e }
     }
@@ -240,11 +237,6 @@ pub fn ln(x: &BF) -> BF {
         y = y.add(&num.div(&den));
     }
     y
-}
-
-/// b^y for b > 0.
-pub fn pow(b: &BF, y: &BF) -> BF {
-    exp(&y.mul(&ln(b)))
 }
 
 /// Parse a decimal literal "d.ddd…" into a BF (for the self-test constants).
